@@ -1400,8 +1400,8 @@ SEW2_OUT = os.path.join(os.path.dirname(os.path.dirname(os.path.abspath(__file__
 POLICY_CODE = {"Vertex": 0, "Edge": 1, "Face": 2, "Volume": 3}
 
 
-def sew_instrs(src, fname):
-    where = f"dim2/sews/one.rs {fname}"
+def sew_instrs(src, fname, label="dim2/sews/one.rs"):
+    where = f"{label} {fname}"
     sig = "".join(fn_sig(src, fname).split())
     params = re.findall(r"(\w+):DartIdType", sig)
     need(params in (["lhs_dart_id", "rhs_dart_id"], ["lhs_dart_id"]), f"{where}: parameters {params}")
@@ -1413,6 +1413,7 @@ def sew_instrs(src, fname):
         out, pos = [], 0
 
         def arg(tok):
+            tok = re.sub(r"as(?:EdgeIdType|VertexIdType|FaceIdType|DartIdType)$", "", tok)     # `x as EdgeIdType`: same number
             need(tok in names, f"{where}: unknown name {tok!r}")
             return names[tok]
 
@@ -1465,6 +1466,52 @@ def sew_instrs(src, fname):
                 out.append((7, [0 if m.group(1) == "merge" else 1, POLICY_CODE[m.group(2)], arg(m.group(3)), arg(m.group(4)), arg(m.group(5))]))
                 pos = m.end()
                 continue
+            m = re.compile(r"let(\w+)=(\w+)as(?:EdgeIdType|VertexIdType|FaceIdType|DartIdType);").match(body, pos)
+            if m:
+                need(m.group(1) not in names, f"{where}: {m.group(1)} bound twice")
+                names[m.group(1)] = arg(m.group(2))          # an alias, no instruction
+                pos = m.end()
+                continue
+            m = re.compile(r"let(\w+)=self\.edge_id_transac\(trans,(\w+)\)\?;").match(body, pos)
+            if m:
+                out.append((10, [arg(m.group(2))]))
+                bind(m.group(1))
+                pos = m.end()
+                continue
+            m = re.compile(r"match\((\w+)==NULL_DART_ID,(\w+)==NULL_DART_ID\)\{").match(body, pos)
+            if m:
+                inner, end = block_after(body, m.end() - 1, where)
+                arms, ipos = {}, 0
+                while ipos < len(inner):
+                    h = re.compile(r"\((true|false),(true|false)\)=>\{").match(inner, ipos)
+                    need(h, f"{where}: match arm not recognised at {inner[ipos:ipos + 60]!r}")
+                    blk, ipos = block_after(inner, h.end() - 1, where)
+                    key = (h.group(1) == "true", h.group(2) == "true")
+                    need(key not in arms, f"{where}: arm {key} twice")
+                    arms[key] = block(blk, dict(names), nvars)[0]
+                    if inner.startswith(",", ipos):
+                        ipos += 1
+                order = [(True, True), (True, False), (False, True), (False, False)]
+                need(set(arms) == set(order), f"{where}: arms {sorted(arms)}")
+                out.append((9, [arg(m.group(1)), arg(m.group(2))] + [len(arms[k]) for k in order]))
+                for k in order:
+                    out += arms[k]
+                pos = end
+                continue
+            # the orientation test of two_sew: four vertex reads, two difference vectors, abort on a non-negative dot product
+            rv = r"self\.vertices\.read\(trans,(\w+)\)"
+            m = re.compile(r"iflet\(Ok\(Some\((\w+)\)\),Ok\(Some\((\w+)\)\),Ok\(Some\((\w+)\)\),Ok\(Some\((\w+)\)\),?\)=\(" +
+                           rv + "," + rv + "," + rv + "," + rv + r",?\)\{let(\w+)=(\w+)-(\w+);let(\w+)=(\w+)-(\w+);"
+                           r"if(\w+)\.dot\(&(\w+)\)>=T::zero\(\)\{abort\(SewError::BadGeometry\((\d),(\w+),(\w+)\)\)\?;\}\}").match(body, pos)
+            if m:
+                g = m.groups()
+                pl, pb1r, pb1l, pr = g[0:4]
+                # lhs_vector = b1l - l ; rhs_vector = b1r - r ; dot(lhs_vector, rhs_vector) (the dot product is symmetric)
+                need((g[9], g[10]) == (pb1l, pl) and (g[12], g[13]) == (pb1r, pr) and {g[14], g[15]} == {g[8], g[11]},
+                     f"{where}: orientation test is not (b1l - l).(b1r - r) >= 0 on the values read in the order l, b1r, b1l, r")
+                out.append((11, [arg(g[4]), arg(g[5]), arg(g[6]), arg(g[7]), int(g[16]), arg(g[17]), arg(g[18])]))
+                pos = m.end()
+                continue
             m = re.compile(r"if(\w+)==NULL_DART_ID\{").match(body, pos)
             if m:
                 th, end = block_after(body, m.end() - 1, where)
@@ -1485,23 +1532,36 @@ def sew_instrs(src, fname):
 
     body = "".join(fn_body(src, fname).split())
     need(body.endswith("Ok(())"), f"{where}: does not end with Ok(())")
+    # `x as EdgeIdType` inside an argument list is x (identifiers are plain integers in the model)
+    body = re.sub(r"(\w)as(?:EdgeIdType|VertexIdType|FaceIdType|DartIdType)([,)])", r"\1\2", body)
     return block(body, dict(base), 0)[0]
+
+
+SEW2B_RS = os.environ.get("GEN_LEAN_SEW2B_RS", "/repo/honeycomb-core/src/cmap/dim2/sews/two.rs")
 
 
 def gen_sews2():
     src = strip_comments(open(SEW2_RS).read())
-    fns = [(f, sew_instrs(src, f)) for f in ("one_sew", "one_unsew")]
-    out = ["/-\n  GENERATED by /verif/tools/gen_lean.py from\n  /repo/honeycomb-core/src/cmap/dim2/sews/one.rs — DO NOT EDIT.\n"
+    srcb = strip_comments(open(SEW2B_RS).read())
+    fns = [(f, sew_instrs(src, f)) for f in ("one_sew", "one_unsew")] + \
+          [(f, sew_instrs(srcb, f, "dim2/sews/two.rs")) for f in ("two_sew", "two_unsew")]
+    out = ["/-\n  GENERATED by /verif/tools/gen_lean.py from\n  /repo/honeycomb-core/src/cmap/dim2/sews/one.rs and two.rs — DO NOT EDIT.\n"
            "  Regenerated by tools/check.py before every build of a module that imports it.\n\n"
-           "  `CMap2::one_sew(lhs, rhs)` / `CMap2::one_unsew(lhs)` as (opcode, operands):\n"
+           "  `CMap2::one_sew(lhs, rhs)` / `one_unsew(lhs)` (sews/one.rs), `two_sew(lhs, rhs)` / `two_unsew(lhs)` (sews/two.rs) as (opcode, operands):\n"
            "    (0, [f, a, b])         try_or_coerce!(self.betas.<f>(trans, a, b), SewError)   f as in Gen/Links3.lean\n"
            "    (1, [i, a])            let x = self.betas[(i, a)].read(trans)?                  (binds the next variable)\n"
            "    (5, [a])               let x = self.vertex_id_transac(trans, a)?                (binds; a tuple `let` is two of these)\n"
            "    (6, [k, o, a, b])      try_or_coerce!(self.vertices.merge / split (k = 0 / 1)(trans, o, a, b), SewError)\n"
            "    (7, [k, p, o, a, b])   try_or_coerce!(self.attributes.merge_ / split_attributes(trans, OrbitPolicy::p, o, a, b), SewError)\n"
            "    (8, [a, n, m])         if a == NULL_DART_ID { the next n instructions } else { the m instructions after them }\n"
+           "    (9, [a, b, n1..n4])    match (a == NULL_DART_ID, b == NULL_DART_ID) { (true, true) => n1 instructions, (true, false) => n2,\n"
+           "                           (false, true) => n3, (false, false) => n4 }  (the blocks follow in this order)\n"
+           "    (10, [a])              let x = self.edge_id_transac(trans, a)?                   (binds)\n"
+           "    (11, [l, b1r, b1l, r, i, a, b])  the orientation test of two_sew: read the four vertex values in this order; if all are\n"
+           "                           defined and (b1l - l) . (b1r - r) >= 0, abort(SewError::BadGeometry(i, a, b))\n"
+           "    `let x = y as EdgeIdType` is an alias (no instruction); `x as EdgeIdType` in an argument is x.\n"
            "  operands: 0 = lhs_dart_id, 1 = rhs_dart_id (parameter), 2 = NULL_DART_ID, 20 + j = the j-th variable bound on the path taken;\n"
-           "  p: 0 = Vertex.  Props/C01Gen2.lean interprets these lists and proves them EQUAL to `oneSew2` / `oneUnsew2` of Model/Ops2.lean.\n-/\n",
+           "  p: 0 = Vertex, 1 = Edge.  Props/C01Gen2.lean interprets these lists and proves them EQUAL to `oneSew2` / `oneUnsew2` / `twoSew2` / `twoUnsew2`\n  of Model/Ops2.lean.\n-/\n",
            "namespace HC.Gen\n"]
     for f, ins in fns:
         camel = re.sub(r"_(\w)", lambda m: m.group(1).upper(), f) + "2"
